@@ -184,16 +184,16 @@ Definition cact_code (a : cact) : nat := match a with CG _ => 1 | CT _ => 2 | CO
 Definition disk_of (g t w : nat) (r : option nat) (cs : list chrom) : disk :=
   mkD g t w r (fun j => nth j cs empty_chrom).
 Definition kinds (l : list cact) : list nat := map cact_code l.
-(* one run from an observed disk: revised?, then per chromosome: the writes (kinds, 9-terminated),
+(* one run from an observed disk ([nml]: the gene-name list of each gene version, as a class number): revised?, then per chromosome: the writes (kinds, 9-terminated),
    the chromosome afterwards, its outcome (6 numbers, padded) *)
 Definition pad6 (l : list nat) : list nat := firstn 6 (l ++ [0; 0; 0; 0; 0; 0]).
-Definition flat_step (fixed reset revise : bool) (s : disk) (n : nat) : list nat :=
+Definition flat_step (fixed reset revise : bool) (nml : list nat) (s : disk) (n : nat) : list nat :=
   let s1 := after1 revise s in
   let s' := run fixed reset revise (fun _ => no_ties) s in
   b2n (revises revise s) :: onat (R s') ++
   flat_map (fun j =>
       kinds (cplan fixed reset no_ties (gv s) (target revise s) (wv s) (chs s1 j)) ++ [9] ++
-      flat_chrom (chs s' j) ++ pad6 (flat_outcome (result (fun x => x) s' j)))
+      flat_chrom (chs s' j) ++ pad6 (flat_outcome (result (fun v => nth v nml v) s' j)))
     (seq 0 n).
 (* every disk an interrupted run can leave on chromosome j: the prefixes of its writes (phase 1 done) *)
 Definition flat_prefixes (fixed reset revise : bool) (s : disk) (n : nat) : list nat :=
